@@ -77,6 +77,22 @@ let dnl_line (s : fw) (pn : (string * name) list) (px : n list) : string =
   let hits = List.sort compare hits in
   Printf.sprintf "dnl %d %s" (List.length s.dnl) (String.concat " " hits)
 
+(* did the implementation take this Interest as pending?  yes iff after the event its PIT dump has, in the entry with the
+   Interest's aggregation key, an in-record of the arrival face stamped with the time of this event (every event of the
+   harness happens at a distinct virtual instant); returns that entry's token *)
+let impl_pending (pitl : string) (nm : string) (cbp : string) (mbf : string) (hint : string) (face : string) (now : string)
+  : string option =
+  let ents = match String.split_on_char ' ' pitl with _ :: r -> r | [] -> [] in
+  List.find_map (fun e ->
+    match String.split_on_char '|' e with
+    | n :: c :: m :: h :: tok :: _ :: _ :: ins :: _ when n = nm && c = cbp && m = mbf && h = hint ->
+        if ins = "-" then None else
+        if List.exists (fun r -> match String.split_on_char ':' r with
+                                 | f :: _ :: at :: _ -> f = face && at = now
+                                 | _ -> false) (String.split_on_char ',' ins)
+        then Some tok else None
+    | _ -> None) ents
+
 (* ---------------------------------------------------------------- parsing *)
 let fields (l : string) : string list = List.filter (fun s -> s <> "") (String.split_on_char ' ' l)
 
@@ -175,6 +191,7 @@ let () =
       let changed = ref false in
       let prev_obs = ref ("pit", "cs ", "") in
       let diverged = ref false in
+      let sp = ref [] in   (* C01: the pending table computed from the history and the implementation's observations *)
       List.iter (fun b ->
         incr evno; incr nevents;
         Hashtbl.replace kinds (List.hd b.evl) ();
@@ -223,6 +240,49 @@ let () =
           let (ppit, pcs, pdnl) = !prev_obs in
           if inbound && (outs_impl <> [] || b.pit <> ppit || b.cs <> pcs || b.dnl <> pdnl) then
             Printf.printf "ORACLE C09 %s %d scope-in | a /localhost packet from a non-local face was not ignored (outputs or table state changed)\n" caseid !evno
+        end;
+        if want "C01" then begin
+          let tidv = pre.tid in
+          (match e with
+           | EData (now, d) ->
+               if not (c01_data_only_pending pre.faces tidv !sp d outs_impl_parsed) then
+                 Printf.printf "ORACLE C01 %s %d data-not-pending:%s | Data %s (token %s) from face %s was emitted to a face without a matching pending Interest, with a wrong token, or twice: [%s]\n"
+                   caseid !evno (if d.d_tok = [] then "no-token" else if List.length d.d_tok = 6 then "token6" else "token-other")
+                   (string_of_name d.d_name) (hex_of_bytes d.d_tok) (dec_of_n d.d_face) (String.concat "; " outs_impl);
+               if not (c01_data_complete pre.faces tidv now !sp d outs_impl_parsed) then begin
+                 let missing = List.filter (fun p -> sat_rec tidv d p && N.ltb now p.p_exp && not (N.eqb p.p_face d.d_face)) !sp in
+                 let why =
+                   if d.d_name = [] then "empty-name"
+                   else if List.exists (fun p -> p.p_dtok <> [] && List.length p.p_dtok <> 6) missing then "x" else "y" in
+                 ignore why;
+                 Printf.printf "ORACLE C01 %s %d data-undelivered:%s:%s | Data %s (token %s) from face %s was not delivered to every face with a live pending Interest it satisfies; sent [%s]; pending: %s\n"
+                   caseid !evno (if d.d_tok = [] then "no-token" else if List.length d.d_tok = 6 then "token6" else "token-other")
+                   (if d.d_name = [] then "empty-name" else "name")
+                   (string_of_name d.d_name) (hex_of_bytes d.d_tok) (dec_of_n d.d_face) (String.concat "; " outs_impl)
+                   (String.concat "; " (List.map (fun p -> Printf.sprintf "face %s %s cbp=%s tok=%s utok=%s" (dec_of_n p.p_face) (string_of_name p.p_name) (b01 p.p_cbp) (hex_of_bytes p.p_dtok) (dec_of_n p.p_utok)) missing))
+               end;
+               sp := pend_data pre.faces tidv !sp d
+           | EInterest (now, i) ->
+               if not (c01_cs_reply_ok i outs_impl_parsed) then
+                 Printf.printf "ORACLE C01 %s %d cs-reply | the reply to Interest %s from face %s went elsewhere, carried another token, or was sent more than once: [%s]\n"
+                   caseid !evno (string_of_name i.i_name) (dec_of_n i.i_face) (String.concat "; " outs_impl);
+               let hk = match select_hint pre.regions i.i_hints with Some h -> string_of_name h | None -> "-" in
+               (* the PIT token attached upstream must be this forwarder's: thread id ++ token of the Interest's PIT entry *)
+               (match pick "tok" with
+                | Some t when t <> "-" ->
+                    List.iter (fun o -> if o.o_kind = KInterest && o.o_tok <> up_token tidv (n_of_dec t) then
+                      Printf.printf "ORACLE C01 %s %d upstream-token:%s | Interest %s was forwarded on face %s with PIT token %s, not this forwarder's token %s for its PIT entry (the returning Data cannot be matched)\n"
+                        caseid !evno (if i.i_nhf <> None then "nexthopfaceid" else "strategy") (string_of_name i.i_name) (dec_of_n o.o_face)
+                        (hex_of_bytes o.o_tok) (hex_of_bytes (up_token tidv (n_of_dec t)))) outs_impl_parsed
+                | _ -> ());
+               (match impl_pending b.pit (string_of_name i.i_name) (b01 i.i_cbp) (b01 i.i_mbf) hk (dec_of_n i.i_face) (dec_of_n now) with
+                | Some tok -> sp := pend_interest pre.regions !sp now i (n_of_dec tok)
+                | None -> ())
+           | ETick now ->
+               if outs_impl <> [] then Printf.printf "ORACLE C01 %s %d spontaneous | a PIT update emitted packets: [%s]\n" caseid !evno (String.concat "; " outs_impl);
+               sp := pend_tick !sp now
+           | _ ->
+               if outs_impl <> [] then Printf.printf "ORACLE C01 %s %d spontaneous | an event that is not a packet arrival emitted packets: [%s]\n" caseid !evno (String.concat "; " outs_impl))
         end;
         if outs_impl <> [] || b.pit <> "pit" then changed := true;
         prev_obs := (b.pit, b.cs, b.dnl)
